@@ -1,122 +1,106 @@
-#!/usr/bin/env python
-"""
-C19 demo 2: a node client that reconnects after its connection broke in the
-middle of a packet loses the first packet of the NEW connection.
+"""C19 demo 2: a remote handler that SUCCEEDS with a result json cannot encode is never answered.
 
-The Client component keeps one Protocol object for its whole life; the
-incomplete tail of the old connection stays in Protocol.__buffer and is glued
-in front of the first packet received on the new connection, which therefore
-does not decode and is silently dropped (never executed, never answered).
-
-The peer is played by a plain listening socket, so that the bytes on the wire
-are exactly known.
+The peer answers a call from Protocol.result_handler (handler of <name>_success
+on the channel node_result) through send_result() -> dump_value() -> json.dumps.
+dump_value() serialises Value._value as it is.  If that is not JSON (bytes, a set,
+a datetime ... or simply the Value object that `return self.fire(other())`
+produces, a standard circuits idiom) json.dumps raises TypeError inside
+result_handler.  The failed event is then <name>_success, not the call, so the
+failure_handler that relays errors does not feel responsible either: nothing is
+sent back - neither result nor error flag - and the sender waits for ever.
 """
-import json
 import socket
 import sys
 import time
 
-from circuits import Component, Manager
-from circuits.node import Node
+from circuits import Component, Event
+from circuits.node import Node, remote
+
+
+def freeport():
+    s = socket.socket()
+    s.bind(('127.0.0.1', 0))
+    p = s.getsockname()[1]
+    s.close()
+    return p
+
+
+class inner(Event):
+    pass
+
+
+class PeerApp(Component):
+    def init(self):
+        self.calls = []
+        self.errors = []
+
+    def plain(self):
+        self.calls.append('plain')
+        return 'fine'
+
+    def nested(self):
+        # result of this handler is the (future) result of another event
+        self.calls.append('nested')
+        return self.fire(inner())
+
+    def inner(self):
+        return 'inner result'
+
+    def rawbytes(self):
+        self.calls.append('rawbytes')
+        return b'\x00\x01'
+
+    def exception(self, etype, evalue, tb, handler=None, fevent=None):
+        self.errors.append('%s: %s (while handling %s)' % (etype.__name__, evalue, getattr(fevent, 'name', None)))
 
 
 class App(Component):
-    channel = 'node'
+    def init(self):
+        self.results = []
 
-    def __init__(self):
-        super().__init__()
-        self.executed = []
-
-    def hello(self, text):
-        self.executed.append(text)
-        return 'got ' + text
+    def go(self, ev):
+        x = yield self.call(remote(ev, 'peer'))
+        self.results.append((ev.name, x.value, getattr(ev, 'errors', None)))
 
 
-def spin(m, n):
-    for _ in range(n):
-        m._running = True
-        m.tick(0)
-        time.sleep(0.005)
+def pump(ms, cond=None, t=5.0):
+    end = time.time() + t
+    while time.time() < end:
+        for m in ms:
+            m.tick(0.01)
+        if cond is not None and cond():
+            return True
+    return False
 
 
-def packet(id, text):
-    return json.dumps({
-        'id': id, 'name': 'hello', 'args': [text], 'kwargs': {}, 'success': False,
-        'failure': False, 'notify': False, 'channels': ['node'], 'meta': {},
-    }).encode('ascii') + b'~~~'
+port = freeport()
+peer = PeerApp()
+pnode = Node(port=port, server_ip='127.0.0.1').register(peer)
+app = App()
+node = Node().register(app)
+node.add('peer', '127.0.0.1', port, reconnect_delay=0)
+ms = [peer, app]
+for m in ms:
+    m._running = True
+assert pump(ms, lambda: len(pnode.server.get_socks()) == 1), 'could not connect over loopback'
+pump(ms, t=0.2)
 
+unanswered = []
+for name in ('plain', 'nested', 'rawbytes'):
+    n = len(app.results)
+    app.fire(Event.create('go', Event.create(name)))
+    answered = pump(ms, lambda: len(app.results) > n, t=3)
+    if answered:
+        print('%-8s: executed on the peer, waiting handler got (name, value, error flag) = %r' % (name, app.results[-1]))
+    else:
+        print('%-8s: executed on the peer %d time(s), but NO reply (neither result nor error flag) within 3 s'
+              % (name, peer.calls.count(name)))
+        unanswered.append(name)
+for line in peer.errors:
+    print('  peer side:', line)
 
-def accept(listener, m, tries=600):
-    listener.settimeout(0.005)
-    for _ in range(tries):
-        spin(m, 1)
-        try:
-            return listener.accept()[0]
-        except OSError:
-            pass
-    return None
-
-
-def read_reply(conn, m):
-    conn.settimeout(0.005)
-    data = b''
-    for _ in range(200):
-        spin(m, 1)
-        try:
-            data += conn.recv(65536)
-        except OSError:
-            pass
-        if data.endswith(b'~~~'):
-            break
-    return data
-
-
-def main():
-    listener = socket.socket()
-    listener.bind(('127.0.0.1', 0))
-    listener.listen(5)
-    port = listener.getsockname()[1]
-
-    m = Manager()
-    node = Node().register(m)
-    app = App().register(m)
-    node.add('peer', '127.0.0.1', port, reconnect_delay=0.2)
-
-    # first connection: the peer dies after the first 25 bytes of a packet
-    c1 = accept(listener, m)
-    assert c1 is not None, 'client did not connect'
-    spin(m, 10)
-    c1.sendall(packet(0, 'one')[:25])
-    spin(m, 20)
-    c1.close()
-    print('connection 1: peer sent %r and went away' % packet(0, 'one')[:25])
-
-    # the client reconnects by itself (reconnect_delay)
-    c2 = accept(listener, m)
-    assert c2 is not None, 'client did not reconnect'
-    spin(m, 10)
-    print('connection 2: established (automatic reconnect)')
-
-    # second connection: a complete, well formed packet in one piece
-    c2.sendall(packet(0, 'two'))
-    reply = read_reply(c2, m)
-    print('connection 2: peer sent a complete hello("two") packet')
-    print('  executed locally so far :', app.executed)
-    print('  reply received by peer  :', reply or None)
-
-    c2.sendall(packet(1, 'three'))
-    reply3 = read_reply(c2, m)
-    print('connection 2: peer sent a complete hello("three") packet')
-    print('  executed locally so far :', app.executed)
-    print('  reply received by peer  :', reply3 or None)
-
-    if app.executed.count('two') != 1 or b'got two' not in reply:
-        print('VIOLATION: the first event sent over the new connection was executed %d times and '
-              'answered with %r (expected: once, result "got two")' % (app.executed.count('two'), reply))
-        return 1
-    print('ok: the new connection starts with a clean buffer')
-    return 0
-
-
-if __name__ == '__main__':
-    sys.exit(main())
+if unanswered:
+    print('VIOLATION: calls %r ran on the peer but nothing ever comes back to the waiting handler' % (unanswered,))
+    sys.exit(1)
+print('ok: every call was answered (result or error flag)')
+sys.exit(0)
